@@ -224,8 +224,9 @@ example : ∃ sys0 s : Sys, ∃ rs, ∃ ta tb : Tcb,
 example : closeDataCheck = true := by decide
 
 /-- **Close with ANY amount of data queued** (`_partial`: steady starting states with a quiet peer; fair loss-free
-    schedule).  As `c03_close_with_data_queued_partial`, but: A's retransmission queue may hold data B has received and
-    acknowledged by a pure ACK still waiting on B's one-shot queue (the steady states a fair exchange passes through), and
+    schedule).  As `c03_close_with_data_queued_partial`, but: either retransmission queue may hold data the other side has
+    received and acknowledged by a pure ACK still waiting on its one-shot queue (the steady states a fair exchange passes
+    through: B need not be idle, it only has nothing UNSENT), and
     A's unsent text is only bounded by `65535·n` bytes for some `n` (H31 apart).  After `close A` the closer **keeps
     segmentizing in FIN-WAIT-1**: in every exchange phase it cuts exactly what the window admits — the segments its
     ESTABLISHED twin would cut (`Tcb.segments_twin_more`) — and processes B's pure ACKs exactly as in ESTABLISHED
@@ -240,7 +241,7 @@ theorem c03_close_with_any_data_queued_partial (ia ib : Seq) (ma mb : U16) (simu
     (rs : List Res) (hma : SPACE_FOR_HEADERS ≤ ma.toNat) (hmb : SPACE_FOR_HEADERS ≤ mb.toNat)
     (h0 : Sys.run {} [.open .A ia ma, if simultaneous then .open .B ib mb else .listen .B ib mb] = .ok (sys0, rs))
     (hrun : PlainRun sys0 s) (h31 : RoomH s) (ta tb : Tcb) (hs : Steady s ta tb)
-    (qb : tb.outgoing.retransmit = []) (tbt : tb.outgoing.text = [])
+    (tbt : tb.outgoing.text = [])
     (hne : ta.outgoing.text ≠ []) (n : Nat) (hlen : ta.outgoing.text.length ≤ 65535 * n) :
     ∃ s1 ta1 tb1 s2, closeDataFrontN n s = .ok s1 ∧ FinRun s s1 ∧ s1.a.tcb = some ta1 ∧ s1.b.tcb = some tb1 ∧
       ta1.state = .FinWait2 ∧ tb1.state = .CloseWait ∧ RestX .A ta1 tb1 ∧ RestX .B tb1 ta1 ∧
@@ -250,7 +251,7 @@ theorem c03_close_with_any_data_queued_partial (ia ib : Seq) (ma mb : U16) (simu
       s2.a.submitted = s.a.submitted ∧ s2.b.submitted = s.b.submitted := by
   have hg := good_of_reach ia ib ma mb simultaneous sys0 s rs hma hmb h0 hrun h31
   obtain ⟨s1, ta1, tb1, s2, e1, r1, h1a, h1b, sa, sb, ca, cb, u1, u2, u3, e12, e2, r2, na, nb, v1, v2, v3, v4⟩ :=
-    close_data_any n s hg ta tb hs ⟨tbt, qb⟩ hne hlen
+    close_data_any n s hg ta tb hs ⟨tbt⟩ hne hlen
   have hfr : FinRun sys0 s1 := (FinRun.of_plain hrun).trans r1
   have hlt : C01.Lt31 s1 := by
     have := h31.lt31
@@ -298,7 +299,7 @@ def closeDataCheck2 : Bool :=
     queue and B's one-shot queue are NOT empty), and the schedule, evaluated, ends as promised -/
 example : ∃ sys0 s : Sys, ∃ rs, ∃ ta tb : Tcb,
     Sys.run {} [.open .A 1000 1500, if false then .open .B 5000 1500 else .listen .B 5000 1500] = .ok (sys0, rs) ∧
-    PlainRun sys0 s ∧ RoomH s ∧ Steady s ta tb ∧ tb.outgoing.retransmit = [] ∧
+    PlainRun sys0 s ∧ RoomH s ∧ Steady s ta tb ∧
     tb.outgoing.text = [] ∧ ta.outgoing.text ≠ [] ∧ ta.outgoing.text.length ≤ 65535 * 1 ∧
     ta.outgoing.retransmit.length = 1 ∧ tb.outgoing.oneshot.length = 1 := by
   have key : closeDataCheck2 = true := by decide
@@ -314,7 +315,7 @@ example : ∃ sys0 s : Sys, ∃ rs, ∃ ta tb : Tcb,
         simp only [Bool.and_eq_true, List.isEmpty_iff, beq_iff_eq] at k1
         obtain ⟨⟨⟨⟨⟨⟨⟨x1, x2⟩, x3⟩, x4⟩, x5⟩, x6⟩, x7⟩, x8⟩ := k1
         exact ⟨sys0, s, rs, ta, tb, e0, plainRunB_sound _ _ _ e1, ⟨r1, r2⟩,
-          ⟨hta, htb, steadyXB_sound _ _ x1, steadyXB_sound _ _ x2⟩, x4, x5, by rw [x6]; simp,
+          ⟨hta, htb, steadyXB_sound _ _ x1, steadyXB_sound _ _ x2⟩, x5, by rw [x6]; simp,
           by rw [x6]; decide, x7, x8⟩
       · simp at k1
     · simp at key
